@@ -45,10 +45,16 @@ impl<'a> UnusedLiteralVisitor<'a> {
         );
 
         if is_literal {
-            let fix = Autofix {
-                description: "Remove unused value".to_owned(),
-                position: self.get_line_position(&expr.position),
-                new_text: String::new(),
+            // Only offer to remove the literal if that can't change
+            // what the program does.
+            let fixes = if has_no_side_effects(expr) {
+                vec![Autofix {
+                    description: "Remove unused value".to_owned(),
+                    position: self.get_line_position(&expr.position),
+                    new_text: String::new(),
+                }]
+            } else {
+                vec![]
             };
 
             self.unused_literals.push(Diagnostic {
@@ -56,7 +62,7 @@ impl<'a> UnusedLiteralVisitor<'a> {
                 severity: Severity::Warning,
                 message: ErrorMessage(vec![Text("Unused value.".to_owned())]),
                 position: expr.position.clone(),
-                fixes: vec![fix],
+                fixes,
             });
         }
     }
@@ -94,6 +100,27 @@ impl<'a> UnusedLiteralVisitor<'a> {
         line_position.column = 0;
 
         line_position
+    }
+}
+
+/// Is `expr` built only from literals and variables, so evaluating it
+/// can't have any effect?
+fn has_no_side_effects(expr: &Expression) -> bool {
+    match &expr.expr_ {
+        Expression_::IntLiteral(_)
+        | Expression_::FloatLiteral(_)
+        | Expression_::StringLiteral(_)
+        | Expression_::Variable(_) => true,
+        Expression_::ListLiteral(items) => items.iter().all(|i| has_no_side_effects(&i.expr)),
+        Expression_::TupleLiteral(items) => items.iter().all(|i| has_no_side_effects(i)),
+        Expression_::DictLiteral(items) => items
+            .iter()
+            .all(|kv| has_no_side_effects(&kv.key) && has_no_side_effects(&kv.value)),
+        Expression_::StructLiteral(_, fields) => {
+            fields.iter().all(|(_, value)| has_no_side_effects(value))
+        }
+        Expression_::Parentheses(paren) => has_no_side_effects(&paren.expr),
+        _ => false,
     }
 }
 
